@@ -394,6 +394,16 @@ def check_pool(P, rep, PF, rule="PAR.pool"):
             good = False
     # (5) joins: a range-for over the pool member that joins, post-dominating both launches
     joins = [n for n in PF.walk() if n.get("k") == "CXXMemberCallExpr" and P.d(n.get("callee")).get("qn") == "std::thread::join"]
+    if not joins:
+        # the join loop may live in a member helper called from here (`join_all()`): this rule reads parallel_for itself
+        cls_ = PF.qn.rsplit("::", 1)[0]
+        for c_ in PF.walk():
+            if c_.get("k") == "CXXMemberCallExpr" and c_.get("callee") in P.funcs:
+                G_ = P.funcs[c_["callee"]]
+                if G_.body is not None and G_.qn.rsplit("::", 1)[0] == cls_ and any(
+                        y.get("k") == "CXXMemberCallExpr" and P.d(y.get("callee")).get("qn") == "std::thread::join" for y in G_.walk()):
+                    rep.unknown(rule, "the threads are joined in the member helper %s; the launch/join analysis is written over parallel_for alone" % G_.qn)
+                    return
     if len(joins) != 1:
         rep.violation(rule, "%d join() calls" % len(joins), PF.loc, PF.qn, "", "threads are not joined before results are used",
                       key=rule + "|join-count", witness="results read while workers still run")
